@@ -140,22 +140,63 @@ def emit (N : Nat) (s : RsiState α) : RsiState α :=
   else if s.avgLoss = 0 then { s with out := some 100 }
   else { s with out := some (100 - 100 / (1 + s.avgGain / s.avgLoss)) }
 
-theorem step_eq (N : Nat) (hN : 0 < N) (s : RsiState α) (v : α) :
+theorem maxv_of_nonneg (x : α) (h : 0 ≤ x) : maxv x (nat 0 : α) = x := by
+  simp only [maxv, nat_eq, Nat.cast_zero, not_lt.mpr h, if_false]
+
+theorem sum_gpart_nonneg (N : Nat) (W : List α) : 0 ≤ sumL (W.map (gpart N)) := by
+  induction W with
+  | nil => simp
+  | cons d W ih =>
+    simp only [List.map_cons, sumL_cons, gpart]
+    split
+    · rename_i h; have : 0 ≤ d / (N : α) := div_nonneg h.le (Nat.cast_nonneg N); linarith
+    · linarith
+
+theorem absv_nonneg (d : α) : 0 ≤ absv d := by
+  simp only [absv, nat_eq, Nat.cast_zero]; split <;> linarith
+
+theorem sum_lpart_nonneg (N : Nat) (W : List α) : 0 ≤ sumL (W.map (lpart N)) := by
+  induction W with
+  | nil => simp
+  | cons d W ih =>
+    simp only [List.map_cons, sumL_cons, lpart]
+    split
+    · linarith
+    · have : 0 ≤ absv d / (N : α) := div_nonneg (absv_nonneg d) (Nat.cast_nonneg N); linarith
+
+/-- the clamp `.max(0)` after a removal is the identity whenever the running averages stay non-negative — which the
+invariant guarantees in exact arithmetic (it only matters for floating-point residue) -/
+theorem step_eq (N : Nat) (hN : 0 < N) (s : RsiState α) (v : α)
+    (hnn : N ≤ (reset s v).q.length → 0 ≤ (evict N (reset s v)).avgGain ∧ 0 ≤ (evict N (reset s v)).avgLoss) :
     (rsiCore N).step s v = .ok (emit N (push N (if N ≤ (reset s v).q.length then evict N (reset s v) else reset s v) v)) := by
   simp only [rsiCore, nat_eq, Nat.cast_zero, Nat.cast_one, Nat.cast_ofNat]
   have hr : (if s.q.isEmpty = true then ({ s with oldRef := v, lastVal := v } : RsiState α) else s) = reset s v := rfl
   rw [hr]
+  revert hnn
   generalize reset s v = s0
+  intro hnn
   by_cases hfull : N ≤ s0.q.length
   · cases hq : s0.q with
     | nil => rw [hq] at hfull; simp at hfull; omega
     | cons old rest =>
       have hfull' : N ≤ rest.length + 1 := by rw [hq] at hfull; simpa using hfull
+      have hn := hnn hfull
+      simp only [evict, hq] at hn
       simp only [hq, List.length_cons, hfull', if_true, front, bind, Except.bind, pure, Except.pure, List.tail_cons]
       simp only [evict, hq, push, emit]
-      by_cases h1 : 0 < old - s0.oldRef <;> by_cases h2 : 0 < v - s0.lastVal <;>
-        simp only [h1, h2, if_true, if_false, List.length_append, List.length_singleton] <;>
-        (split <;> [rfl; (split <;> simp_all [bind, Except.bind, pure, Except.pure])])
+      by_cases h1 : 0 < old - s0.oldRef
+      · simp only [h1, if_true] at hn
+        have hm := maxv_of_nonneg _ hn.1
+        simp only [nat_eq, Nat.cast_zero] at hm
+        by_cases h2 : 0 < v - s0.lastVal <;>
+          simp only [h1, h2, hm, if_true, if_false, List.length_append, List.length_singleton] <;>
+          (split <;> [rfl; (split <;> simp_all [bind, Except.bind, pure, Except.pure])])
+      · simp only [h1, if_false] at hn
+        have hm := maxv_of_nonneg _ hn.2
+        simp only [nat_eq, Nat.cast_zero] at hm
+        by_cases h2 : 0 < v - s0.lastVal <;>
+          simp only [h1, h2, hm, if_true, if_false, List.length_append, List.length_singleton] <;>
+          (split <;> [rfl; (split <;> simp_all [bind, Except.bind, pure, Except.pure])])
   · simp only [hfull, if_false, bind, Except.bind, pure, Except.pure]
     simp only [push, emit]
     by_cases h2 : 0 < v - s0.lastVal <;>
@@ -309,7 +350,30 @@ theorem emit_inv (N : Nat) (hN : 0 < N) (t : RsiState α) (xs : List α) (x : α
 
 theorem step_ok (N : Nat) (hN : 0 < N) (s : RsiState α) (xs : List α) (x : α) (h : Inv N s xs) :
     ∃ s', (rsiCore N).step s x = .ok s' ∧ Inv N s' (xs ++ [x]) := by
-  refine ⟨_, step_eq N hN s x, ?_⟩
+  refine ⟨_, step_eq N hN s x ?_, ?_⟩
+  · -- the running averages stay non-negative through a removal
+    intro hfull
+    have hg := h.hg
+    have hl := h.hl
+    by_cases h0 : s.q = []
+    · have : reset s x = { s with oldRef := x, lastVal := x } := by simp [reset, h0]
+      rw [this] at hfull; simp [h0] at hfull; omega
+    · have hr : reset s x = s := by simp only [reset]; rw [if_neg]; simpa using h0
+      rw [hr]
+      obtain ⟨old, rest, hqe⟩ := List.exists_cons_of_ne_nil h0
+      have hgs : s.avgGain = gpart N (old - s.oldRef) + sumL ((diffs old rest).map (gpart N)) := by
+        rw [hg, hqe]; simp [diffs]
+      have hls : s.avgLoss = lpart N (old - s.oldRef) + sumL ((diffs old rest).map (lpart N)) := by
+        rw [hl, hqe]; simp [diffs]
+      have g0 := sum_gpart_nonneg N (diffs old rest)
+      have l0 := sum_lpart_nonneg N (diffs old rest)
+      simp only [evict, hqe]
+      by_cases hc : 0 < old - s.oldRef
+      · simp only [hc, if_true, hgs, hls, gpart, lpart]
+        constructor <;> linarith
+      · have ha : 0 ≤ absv (old - s.oldRef) / (N : α) := div_nonneg (absv_nonneg _) (Nat.cast_nonneg N)
+        simp only [hc, if_false, hgs, hls, gpart, lpart]
+        constructor <;> linarith
   apply emit_inv N hN _ xs x (push_pinv N hN s xs x h)
   -- the published output is untouched by reset / evict / push
   have hout := h.hout
